@@ -175,6 +175,10 @@ func (vc *VC) resolveTarget(e *Expr, env *SpecEnv) (target, bool) {
 				if sl, ok := s.typ.Underlying().(*types.Slice); ok && vc.sortOf(s.typ) == "Slice" {
 					return target{heap: vc.arrHeap(sl.Elem()), key: app("s_ref", s.t), field: -1}, true
 				}
+				if vc.sortOf(s.typ) == "Bytes" {
+					// value mode: a byte string is a value - nothing a callee does to its copy is visible here
+					return target{}, false
+				}
 			}
 		}
 	case "select":
